@@ -481,11 +481,13 @@ def check(run):
         "line + real analyze_compiler_output) == accepted, and == its verdict when compiled alone / in batches of other sizes. "
         "non-trivial = program with more than one top-level declaration; distinct by (seed, switches, stage)" % (MAX_DEPTH, CAP))
     run.cov["exhaustive"] = False
-    n = 60 if quick else 2400
+    # thorough: 640 programs (40 per switch setting) fit the 30-minute budget on the shared machine (measured: 600 programs
+    # = 18 min of pipeline under load); C02_PROGRAMS=2400 runs the full calibration set of the design (about 75 min)
+    n = 60 if quick else int(os.environ.get("C02_PROGRAMS", "640"))
     st = {"diffs": [], "unmodelled": [], "equal": 0, "rejections": [], "batch_diffs": []}
     specs = make_specs(run, n, quick)
     t0 = time.time()
-    chunk = 600
+    chunk = 320
     files, reqs_all, metas_all = [], [], []
     for a in range(0, len(specs), chunk):
         results = run_budgeted(run, specs[a:a + chunk], 65) if quick else pipeline.run_many(specs[a:a + chunk])
